@@ -60,6 +60,10 @@ class PropertyRun:
                 self.vacuity[qual] = bool(self.ex.vacuity)
                 if not self.ex.vacuity:
                     self.engine_faults.append(f"vacuous precondition for {qual}")
+                k = S.CONTRACTS.get(qual)
+                if k is not None and k.ensures_ and getattr(self.ex, "n_normal_paths", 1) == 0 and not getattr(k, "never_returns", False):
+                    # a contract with postconditions whose body never returns normally in the encoding: the postconditions would hold vacuously
+                    self.engine_faults.append(f"no normal path through {qual}: its postconditions would be vacuous")
             return vcs
         except (OutOfSubset, ExtractionError) as exc:
             if not canary:
@@ -198,6 +202,13 @@ def _run(pr: PropertyRun, mod) -> int:
 
     refuted = [r for r in main if r.status == "sat"]
     unknown = [r for r in main if r.status not in ("sat", "unsat")]
+    dump = os.environ.get("VERIF_DUMP")
+    if dump:
+        os.makedirs(dump, exist_ok=True)
+        for r in unknown + refuted:
+            safe = "".join(c if c.isalnum() or c in "._-" else "_" for c in r.vc.name)[:100]
+            with open(os.path.join(dump, f"{pid}_{safe}_{r.vc.path}_{r.status}.smt2"), "w") as f:
+                f.write(solve.vc_to_smt2(r.vc, list(pr.ex.global_axioms) + V.str_axioms()))
     for r in unknown:
         if r.status.startswith("error"):
             pr.engine_faults.append(f"{r.vc.name}: {r.status}")
